@@ -346,8 +346,10 @@ pub fn gen_session(seed: u64, run: u64, thorough: bool) -> Session {
     ops.push(PlannedOp::new(Op::Open { uri: healthy.clone(), text: "pub fn main() {\n  1\n}\n".into() }));
     ops.push(PlannedOp::new(Op::Request { id: 9000, method: "glas/syntaxTree".into(), uri: healthy.clone(), pos: [0, 0], extra: json!({}) }));
     ops.push(PlannedOp::new(Op::Request { id: 9001, method: "textDocument/hover".into(), uri: healthy, pos: [0, 8], extra: json!({}) }));
-    for u in &all_uris {
+    for (k, u) in all_uris.iter().enumerate() {
         ops.push(PlannedOp::new(Op::ProbeText { uri: u.clone() }));
+        // ... and what the server analyses must be what its document store holds
+        ops.push(PlannedOp::new(Op::Request { id: 9100 + k as i64, method: "glas/syntaxTree".into(), uri: u.clone(), pos: [0, 0], extra: json!({}) }));
     }
     ops.push(PlannedOp::new(Op::Barrier));
     // One session in three is not polite: the client does not wait for the server between
@@ -672,6 +674,24 @@ pub fn check(s: &Session, h: &History, stats: &mut Stats) -> Option<Violation> {
             stats.error_responses += 1;
         } else {
             stats.result_responses += 1;
+        }
+    }
+    // the analysis database follows the document store: for every document probed at the end, the
+    // syntax tree asked for right after the probe is that of the text the probe saw
+    for (i, p) in s.ops.iter().enumerate() {
+        let Op::Request { id, method, uri, .. } = &p.op else { continue };
+        if !(9100..9200).contains(id) || method != "glas/syntaxTree" || i == 0 {
+            continue;
+        }
+        let Some(Some(held)) = probe_results.get(&(i - 1)) else { continue };
+        let Some(r) = resp.get(id).and_then(|v| v.first()) else { continue };
+        let Some(tree) = r.get("result").and_then(|t| t.as_str()) else { continue };
+        if let Some(diff) = crate::c13::tree_differs_from(tree, held) {
+            return Some(Violation {
+                oracle: "analysis_follows_document_store".into(),
+                kinds: last_kinds.get(uri).cloned().unwrap_or_default(),
+                detail: format!("at the end the server holds {:?} for {uri} but its syntax tree is not that of this text: {diff}", held),
+            });
         }
     }
     // a healthy document is still served
